@@ -40,6 +40,12 @@ THEOREMS = [
     "SleapVerif.C11.missing_repr_irrelevant_inst",
     "SleapVerif.C11.missing_repr_irrelevant",
     "SleapVerif.C11.missing_stays_missing",
+    "SleapVerif.C11.prepPts_value",
+    "SleapVerif.C11.present_stays_present",
+    "SleapVerif.C11.centroid_present",
+    "SleapVerif.C11.present_stays_present_centered",
+    "SleapVerif.C11.present_multi_channel_nonzero",
+    "SleapVerif.C11.present_centroid_channel_nonzero",
     "SleapVerif.C11.padding_rows_missing",
     "SleapVerif.C11.missing_stays_missing_centered",
     "SleapVerif.C11.missing_channel_zero",
@@ -352,7 +358,7 @@ def make_dataset(labels, cfg, chunk_dir=None):
         pre["max_height"], pre["max_width"] = ch, cw
     dc = OmegaConf.create({"user_instances_only": cfg["user_only"], "preprocessing": pre,
                            "augmentation_config": None})
-    hc = OmegaConf.create({"sigma": 1.5, "output_stride": 2, "anchor_part": cfg["anchor"]})
+    hc = OmegaConf.create({"sigma": CM_SIGMA, "output_stride": CM_STRIDE, "anchor_part": cfg["anchor"]})
     common = dict(labels=labels, data_config=dc, max_stride=cfg["max_stride"], scale=cfg["scale"],
                   apply_aug=False, max_hw=tuple(cfg["max_hw"]))
     if cfg.get("np_chunks"):
@@ -399,6 +405,23 @@ def same_sample(a, b):
     return None
 
 
+CM_SIGMA, CM_STRIDE = 1.5, 2       # confidence-map head used by every dataset of the check
+
+
+def peak_shortfall(chan, x, y, stride=CM_STRIDE, sigma=CM_SIGMA):
+    """A labelled keypoint must show in its channel: at the grid cell nearest to (x, y) (clipped
+    to the map) the channel is at least the keypoint's own Gaussian there — whatever other animals
+    contribute or lack.  Returns None or (cell, value, expected)."""
+    import math
+
+    h, w = chan.shape[-2:]
+    j = min(max(int(round(x / stride)), 0), w - 1)
+    i = min(max(int(round(y / stride)), 0), h - 1)
+    want = math.exp(-((j * stride - x) ** 2 + (i * stride - y) ** 2) / (2 * (sigma * stride) ** 2))
+    got = float(chan[i, j])
+    return None if got >= want - 1e-4 else ((i, j), got, want)
+
+
 def oracle_sample(spec, cfg, row, s):
     """missing in the labels <=> missing in the sample (+ zero confidence-map channel); no
     invented point; the padding rows are NaN.  Returns (why | None, structural facts)."""
@@ -421,6 +444,10 @@ def oracle_sample(spec, cfg, row, s):
                 bad.append(f"node {n} present in the labels but NaN in the sample")
             if lab_missing and float(cm[n].abs().max()) != 0.0:
                 bad.append(f"confidence map of missing node {n} peaks at {float(cm[n].max()):.3f}")
+            if not lab_missing and not got_missing:
+                sf = peak_shortfall(cm[n], float(got[n, 0]), float(got[n, 1]))
+                if sf:
+                    bad.append(f"labelled node {n} has no peak in its confidence map: cell {sf[0]} = {sf[1]:.4f}, own Gaussian {sf[2]:.4f}")
         if bool(torch.isnan(s["centroid"]).any()):
             bad.append("centroid of a non-empty instance is NaN")
     else:
@@ -442,6 +469,22 @@ def oracle_sample(spec, cfg, row, s):
             for r in range(cen.shape[0]):
                 if (r >= k) != bool(torch.isnan(cen[r]).any()):
                     bad.append(f"centroid row {r} NaN-ness wrong")
+                elif r < k:
+                    sf = peak_shortfall(s["centroids_confidence_maps"][0][0], float(cen[r, 0]), float(cen[r, 1]))
+                    if sf:
+                        bad.append(f"centroid of animal {r} has no peak in the centroid map: cell {sf[0]} = {sf[1]:.4f}, own Gaussian {sf[2]:.4f}")
+        if cfg["kind"] in ("single", "bottomup"):
+            cm = s["confidence_maps"][0]
+            for r in range(min(k, got.shape[0])):
+                for n in range(nn):
+                    if insts[r]["pts"][n][0] is not None and not bool(torch.isnan(got[r, n]).any()):
+                        ch = n if cfg["kind"] == "bottomup" else r * nn + n
+                        if ch < cm.shape[0]:
+                            sf = peak_shortfall(cm[ch], float(got[r, n, 0]), float(got[r, n, 1]))
+                            if sf:
+                                others = [q for q in range(k) if q != r and insts[q]["pts"][n][0] is None]
+                                bad.append(f"labelled node {n} of animal {r} has no peak in channel {ch}: cell {sf[0]} = {sf[1]:.4f}, "
+                                           f"own Gaussian {sf[2]:.4f}" + (f" (animals {others} lack node {n})" if others else ""))
         if cfg["kind"] == "single":
             cm = s["confidence_maps"][0]
             for r in range(min(got.shape[0], cm.shape[0] // nn)):
@@ -558,6 +601,11 @@ def _run_dataset_case(chk, world, case, m_rep, m_asis, labels, before, chunk_dir
     tags = [cfg["kind"], "user_only" if cfg["user_only"] else "all_instances", f"scale{cfg['scale']}",
             "anchor_none" if cfg["anchor"] is None else "anchor_set"] + (["anchor_missing_somewhere"] if anchor_holes else [])
     tags += ["np_chunks" if npc else "in_memory_cache"]
+    for _f, _ne in rows if cfg["kind"] != "centered" else []:
+        if len(_ne) >= 2 and any(any(i["pts"][n][0] is None for i in _ne) and any(i["pts"][n][0] is not None for i in _ne)
+                                 for n in range(spec["n_nodes"])):
+            tags.append("node_missing_in_one_animal_present_in_another:" + cfg["kind"])
+            break
     raws = [(i, raw_of(i)) for f in spec["frames"] for i in f["insts"]]
     if any(not p[2] and p[0] is not None for _, r in raws for p in r):
         tags.append("hidden_node_with_stored_xy")
@@ -724,6 +772,85 @@ def helper_purity(chk, rng, n):
                     chk.fail(f"C11: {name} modified its argument {where}", case, {"after": a.tolist()}, signatures=[])
 
 
+def multi_confmap_cases(chk, rng, n):
+    """Functional API: a labelled keypoint keeps its peak in `generate_multiconfmaps` /
+    `generate_confmaps` whatever the other animals lack (present_multi_channel_nonzero), a node
+    missing in every counted animal gives the zero channel, the keypoint tensor is untouched."""
+    import torch
+    from sleap_nn.data.confidence_maps import generate_confmaps, generate_multiconfmaps
+
+    fixed = [  # animal 0 lacks node 1, animal 1 has it (and vice versa for node 0)
+        ([[[10.0, 12.0], [None, None]], [[None, None], [30.5, 20.25]]], 2),
+        ([[[None, None], [None, None], [8.0, 8.0]], [[20.0, 6.0], [None, None], [None, None]], [[5.5, 30.0], [40.0, 33.0], [None, None]]], 3),
+    ]
+    for it in range(n + len(fixed)):
+        if it < len(fixed):
+            pts, num = fixed[it]
+        else:
+            n_inst, nn = rng.choice([2, 2, 3, 4]), rng.choice([1, 2, 3, 4])
+            pts = [[[lattice(rng, 2, 60), lattice(rng, 2, 44)] if rng.random() < 0.6 else [None, None]
+                    for _ in range(nn)] for _ in range(n_inst)]
+            k = rng.randrange(nn)               # force the pattern on one node: animal 0 lacks it, animal 1 has it
+            pts[0][k] = [None, None]
+            pts[1][k] = [lattice(rng, 2, 60), lattice(rng, 2, 44)]
+            num = rng.choice([n_inst, n_inst, max(2, n_inst - 1)])
+        H, W = 48, 64
+        stride, sigma = rng.choice([(2, 1.5), (4, 1.5), (2, 2.5), (1, 1.0)])
+        t = torch.tensor([[[float("nan") if c is None else c for c in q] for q in inst] for inst in pts],
+                         dtype=torch.float32).unsqueeze(0)
+        nn = t.shape[2]
+        cen = t[:, :, 0].clone()
+        case = {"points": pts, "num_instances": num, "stride": stride, "sigma": sigma, "img_hw": [H, W]}
+        for name, arg, kw, chan_of in [
+            ("generate_multiconfmaps", t, dict(img_hw=(H, W), num_instances=num, sigma=sigma, output_stride=stride),
+             lambda r, k: k),
+            ("generate_multiconfmaps[centroids]", cen, dict(img_hw=(H, W), num_instances=num, sigma=sigma,
+                                                            output_stride=stride, is_centroids=True), None),
+            ("generate_confmaps", t, dict(img_hw=(H, W), sigma=sigma, output_stride=stride), lambda r, k: r * nn + k),
+        ]:
+            a0 = arg.clone()
+            fn = generate_confmaps if name == "generate_confmaps" else generate_multiconfmaps
+            r = call(fn, arg, **kw)
+            chk.case(("cm", name, str(pts), num, stride, sigma) if it < 40 else None,
+                     case if (it < 2 and name == "generate_multiconfmaps") else None, ["cm:" + name])
+            if r[0] == "raise":
+                chk.disagree(f"{name} raised", case, f"raise:{r[1]}: {r[2]}", "ok")
+                chk.fail(f"C11: {name} raised on valid keypoints ({r[1]})", case, None, signatures=[])
+                continue
+            cm = r[1][0]
+            bad = []
+            if not same(arg, a0):
+                bad.append(f"{name} modified its keypoint argument")
+            if not bool(torch.isfinite(cm).all()):
+                bad.append(f"{name} returned NaN/inf")
+            counted = range(len(pts)) if name == "generate_confmaps" else range(num)
+            if chan_of is None:      # centroid maps: one channel, "node" 0 of every counted animal
+                pres = [(q, 0, pts[q][0]) for q in counted if pts[q][0][0] is not None]
+                chans = {0: [pts[q][0][0] is None for q in counted]}
+                ch_of = lambda q, k: 0
+            else:
+                pres = [(q, k, pts[q][k]) for q in counted for k in range(nn) if pts[q][k][0] is not None]
+                ch_of = chan_of
+                chans = {}
+                for q in counted:
+                    for k in range(nn):
+                        chans.setdefault(ch_of(q, k), []).append(pts[q][k][0] is None)
+            for q, k, (x, y) in pres:
+                sf = peak_shortfall(cm[ch_of(q, k)], x, y, stride, sigma)
+                if sf:
+                    lack = [o for o in counted if o != q and pts[o][k][0] is None]
+                    bad.append(f"{name}: labelled node {k} of animal {q} at ({x}, {y}) has no peak in channel {ch_of(q, k)}: "
+                               f"cell {sf[0]} = {sf[1]:.4f}, own Gaussian {sf[2]:.4f}; animals lacking that node: {lack}")
+            for c, miss in chans.items():
+                if all(miss) and float(cm[c].abs().max()) != 0.0:
+                    bad.append(f"{name}: channel {c} of a node missing in every counted animal is not zero")
+            if bad:
+                chk.disagree(f"{name}: channel >= own kernel of every labelled keypoint (present_multi_channel_nonzero)",
+                             case, bad[0], "holds")
+                for w in bad[:2]:
+                    chk.fail("C11: " + w, case, None, signatures=[])
+
+
 # ------------------------------------------------------------------ known finding replay
 def replay_known(chk, world):
     import torch
@@ -784,6 +911,9 @@ def main(chk: Check):
         # ---- the other helpers: purity
         helper_purity(chk, random.Random(f"C11-pure:{chk.seed}"), chk.n(20, 200))
 
+        # ---- functional API: labelled keypoints keep their confidence-map peak
+        multi_confmap_cases(chk, random.Random(f"C11-cm:{chk.seed}"), chk.n(150, 1500))
+
         # ---- datasets
         ds_cases = []
         w = next((f for f in chk.known if f["id"] == "F-C11"), None)
@@ -819,7 +949,9 @@ def replay(chk: Check, payload):
     case = payload.get("case") or payload["disagreements"][0]["case"]
     tmp = tempfile.mkdtemp(prefix="verif_c11_")
     try:
-        if "points" in case:
+        if "points" in case and "num_instances" in case:
+            multi_confmap_cases(chk, random.Random(f"C11-cm:{payload['seed']}"), 1500 if payload.get("tier") == "thorough" else 150)
+        elif "points" in case:
             body = f"{-1 if case['anchor'] is None else case['anchor']} {len(case['points'])} {len(case['points'][0])} " \
                    + " ".join(coords_line(i) for i in case["points"])
             out = run_driver("C11.lean", ["cen 1 " + body, "cen 0 " + body])
